@@ -41,6 +41,7 @@ type mTrack struct {
 	trunPlace []int
 	noTrex    bool
 	fragID    uint32 // != 0: the traf carries this track id, unknown to the init segment
+	sameAs    int    // > 0: a further traf of track tracks[sameAs-1] (ISO 14496-12: zero or more trafs per track)
 }
 
 type mSpec struct {
@@ -173,6 +174,31 @@ func genMulti(e *env, r *hx.Rng) mSpec {
 		}
 		s.tracks = append(s.tracks, t)
 	}
+	if r.Intn(4) == 0 {
+		// a further traf of the first track (same trak / trex / tenc): ISO 14496-12 allows several trafs per track in a moof
+		t := s.tracks[0]
+		t.sameAs = 1
+		t.samples = nil
+		ns := r.Pick(1, 2, 3)
+		for j := 0; j < ns; j++ {
+			switch {
+			case t.codec == 'u':
+				t.samples = append(t.samples, genAudioSample(r, 0))
+			case t.scheme == "cbcs":
+				t.samples = append(t.samples, frame(genVideoSampleCbcs(e, r, t.codec, 0)))
+			default:
+				t.samples = append(t.samples, frame(genVideoSampleCenc(r, t.codec, 0)))
+			}
+		}
+		t.split = []int{ns}
+		t.trunPlace = t.trunPlace[:1]
+		if t.scheme == "cenc" {
+			t.iv = genIV(r, 16)
+		}
+		ntruns++
+		k++
+		s.tracks = append(s.tracks, t)
+	}
 	s.order = rperm(r, k)
 	s.npssh = r.Pick(0, 1, 1, 2)
 	for j := 0; j < s.npssh; j++ {
@@ -215,7 +241,7 @@ type mBuilt struct {
 	encRaw   []byte // init + [free] + moof + mdat, protected
 	clearRaw []byte // [free] + moof + mdat of the clear reference (no init)
 	initLen  int
-	clearOff map[uint32][]int32 // expected trun data offsets per track after decryption
+	clearOff [][]int32 // expected trun data offsets per traf (moof order) after decryption
 }
 
 // trackPieces protects one track with the library and returns its boxes
@@ -266,7 +292,7 @@ func (e *env) multiPieces(t mTrack, key []byte, protect bool) (mPieces, string) 
 }
 
 // assemble builds moof + mdat bytes; protect=false gives the clear reference
-func (e *env) assemble(s mSpec, protect bool) (frag []byte, init *mp4.InitSegment, offs map[uint32][]int32, why string) {
+func (e *env) assemble(s mSpec, protect bool) (frag []byte, init *mp4.InitSegment, offs [][]int32, why string) {
 	moof := &mp4.MoofBox{}
 	_ = moof.AddChild(mp4.CreateMfhd(7))
 	init = mp4.CreateEmptyInit()
@@ -283,9 +309,11 @@ func (e *env) assemble(s mSpec, protect bool) (frag []byte, init *mp4.InitSegmen
 		if w != "" {
 			return nil, nil, nil, w
 		}
-		init.Moov.AddChild(p.trak)
-		if !t.noTrex {
-			init.Moov.Mvex.AddChild(p.trex)
+		if t.sameAs == 0 {
+			init.Moov.AddChild(p.trak)
+			if !t.noTrex {
+				init.Moov.Mvex.AddChild(p.trex)
+			}
 		}
 		ch := []mp4.Box{p.tfhd, p.tfdt}
 		// truns first (in order), then extras and protection boxes inserted at their places
@@ -372,11 +400,12 @@ func (e *env) assemble(s mSpec, protect bool) (frag []byte, init *mp4.InitSegmen
 		mdat.AddSampleData(tr.data)
 		at += uint64(len(tr.data))
 	}
-	offs = map[uint32][]int32{}
 	for _, traf := range trafs {
+		var o []int32
 		for _, tr := range traf.Truns {
-			offs[traf.Tfhd.TrackID] = append(offs[traf.Tfhd.TrackID], tr.DataOffset)
+			o = append(o, tr.DataOffset)
 		}
+		offs = append(offs, o)
 	}
 	var buf bytes.Buffer
 	if s.start > 0 {
@@ -463,22 +492,20 @@ func xmoofString(t *idTable, f *mp4.Fragment, init *mp4.InitSegment, withSenc bo
 					ivs, subs = listField(l), ssString(senc.SubSamples)
 				}
 			}
-			data := ""
-			trex := trexOf(init, x.Tfhd.TrackID)
-			var fss []mp4.FullSample
-			err := fmt.Errorf("no trex")
-			if trex != nil {
-				if p := hx.Try(func() { fss, err = f.GetFullSamples(trex) }); p != "" {
-					err = fmt.Errorf("panic")
-					data = "panic"
-				}
-			}
-			if err == nil {
-				l := make([][]byte, len(fss))
-				for j := range fss {
-					l[j] = fss[j].Data
+			// the samples of THIS traf, read from the mdat at the trun data offsets with the sizes the truns carry
+			data := "panic"
+			if hx.Try(func() {
+				var l [][]byte
+				for _, tr := range x.Truns {
+					from := int64(m.StartPos) + int64(tr.DataOffset) - int64(f.Mdat.PayloadAbsoluteOffset())
+					for _, smp := range tr.Samples {
+						l = append(l, f.Mdat.Data[from:from+int64(smp.Size)])
+						from += int64(smp.Size)
+					}
 				}
 				data = samplesField(l)
+			}) != "" {
+				data = "panic"
 			}
 			ss[i] = strings.Join([]string{"T", strconv.Itoa(int(x.Tfhd.TrackID)), tboxesString(t, x.Children), offsString(x), ivs, subs, data}, "!")
 		case *mp4.PsshBox:
@@ -634,8 +661,11 @@ func searchMulti(e *env, r *hx.Rng, n int) {
 		f := rn.frag
 		// 1. the data offsets right after DecryptFragment (a fragment with several truns keeps them on Encode)
 		bad := ""
-		for _, traf := range f.Moof.Trafs {
-			want := b.clearOff[traf.Tfhd.TrackID]
+		for ti, traf := range f.Moof.Trafs {
+			var want []int32
+			if ti < len(b.clearOff) {
+				want = b.clearOff[ti]
+			}
 			for j, tr := range traf.Truns {
 				if j >= len(want) || tr.DataOffset != want[j] {
 					bad = fmt.Sprintf("track %d trun %d: data offset %d, clear layout %v", traf.Tfhd.TrackID, j, tr.DataOffset, want)
@@ -646,8 +676,41 @@ func searchMulti(e *env, r *hx.Rng, n int) {
 			fail("mp4.DecryptFragment", "multi-data-offset", wit, "after DecryptFragment a trun does not address its samples any more: "+bad)
 			continue
 		}
-		// 2. sample bytes of every track, read through the library
-		for _, t := range s.tracks {
+		// 2. sample bytes of every traf: through the library (first traf of each track) and straight from the mdat at the
+		//    trun data offsets (every traf; a track may have several trafs in one moof)
+		for oi, ti := range s.order {
+			t := s.tracks[ti]
+			var clear []byte
+			for _, smp := range t.samples {
+				clear = append(clear, smp...)
+			}
+			if oi < len(f.Moof.Trafs) {
+				var got []byte
+				okRead := hx.Try(func() {
+					for _, tr := range f.Moof.Trafs[oi].Truns {
+						from := int64(f.Moof.StartPos) + int64(tr.DataOffset) - int64(f.Mdat.PayloadAbsoluteOffset())
+						got = append(got, f.Mdat.Data[from:from+int64(tr.SizeOfData())]...)
+					}
+				}) == ""
+				if !okRead || !bytes.Equal(got, clear) {
+					bad = fmt.Sprintf("traf %d (track %d)", oi, t.trackID)
+				}
+			}
+			if t.sameAs != 0 {
+				continue
+			}
+			first := true
+			for _, tj := range s.order {
+				if tj == ti {
+					break
+				}
+				if s.tracks[tj].trackID == t.trackID {
+					first = false
+				}
+			}
+			if !first {
+				continue
+			}
 			var fss []mp4.FullSample
 			var err error
 			if p := hx.Try(func() { fss, err = f.GetFullSamples(trexOf(rn.dec.Init, t.trackID)) }); p != "" {
